@@ -8,21 +8,21 @@ vdir, out = sys.argv[1], sys.argv[2]
 par = int(sys.argv[3]) if len(sys.argv) > 3 else 2
 prefixes = sys.argv[4:]
 os.makedirs(out, exist_ok=True)
-BY_FILE = [
-    (r'solvers/anderson_cd', ['C01', 'C02', 'C03', 'C05', 'C17', 'C18', 'C19', 'C20']),
-    (r'solvers/gram_cd', ['C01', 'C03', 'C17', 'C19', 'C20']),
-    (r'solvers/(prox_newton|group_prox_newton)', ['C01', 'C02', 'C03', 'C17', 'C19', 'C20']),
-    (r'solvers/group_bcd', ['C01', 'C02', 'C03', 'C05', 'C17', 'C19', 'C20']),
-    (r'solvers/multitask_bcd', ['C01', 'C03', 'C05', 'C17', 'C20']),
-    (r'solvers/(fista|lbfgs|common|base)', ['C01', 'C02', 'C08', 'C13']),
-    (r'penalties/', ['C04', 'C07', 'C08', 'C14', 'C15', 'C16', 'C02']),
-    (r'utils/prox_funcs', ['C07', 'C08', 'C04', 'C02']),
-    (r'datafits/', ['C06', 'C09', 'C10', 'C14', 'C19', 'C02']),
-    (r'utils/sparse_ops', ['C09', 'C10', 'C06']),
+BY_FILE = [          # touched file -> the checks that read it most directly (own property is always run)
+    (r'solvers/anderson_cd', ['C01', 'C05']),
+    (r'solvers/gram_cd', ['C01', 'C17']),
+    (r'solvers/(prox_newton|group_prox_newton)', ['C01', 'C03']),
+    (r'solvers/group_bcd', ['C01', 'C19']),
+    (r'solvers/multitask_bcd', ['C01', 'C20']),
+    (r'solvers/(fista|lbfgs|common|base)', ['C01', 'C17']),
+    (r'penalties/', ['C07', 'C08']),
+    (r'utils/prox_funcs', ['C07']),
+    (r'datafits/', ['C06', 'C09']),
+    (r'utils/sparse_ops', ['C09', 'C10']),
     (r'utils/(validation|jit_compilation)', ['C13', 'C18']),
-    (r'utils/anderson', ['C01', 'C03']),
-    (r'estimators', ['C11', 'C12', 'C13', 'C05', 'C18', 'C16']),
-    (r'experimental/', ['C02', 'C11', 'C18', 'C05']),
+    (r'utils/anderson', ['C01']),
+    (r'estimators', ['C05', 'C18']),
+    (r'experimental/', ['C18']),
 ]
 
 
